@@ -161,6 +161,8 @@ def apply(st_, op):
             kw['primary'] = primary
         if kexp is not None:
             kw['key_expiration'] = datetime.timedelta(seconds=kexp)
+        if (op[3] // len(FLAGSETS)) % 2:
+            kw['include_issuer_fingerprint'] = False      # documented keyword: only the 64-bit issuer id is written
         with unlocked(key, m):
             key.add_uid(obj, **kw)
         um.update(selfsigs=[{'t': t, 'flags': flags, 'prefs': prefs, 'primary': primary, 'kexp': kexp}], revocations=0, certs3=[])
@@ -199,6 +201,8 @@ def apply(st_, op):
             kw['primary'] = primary
         if kexp is not None:
             kw['key_expiration'] = datetime.timedelta(seconds=kexp)
+        if (op[3] // len(FLAGSETS)) % 2:
+            kw['include_issuer_fingerprint'] = False
         with unlocked(key, m):
             u = _find_uid(key, um)
             u |= key.certify(u, SignatureType.Positive_Cert, **kw)
